@@ -91,7 +91,7 @@ fn main() {
 	c.assume("both peers are unmodified LDK nodes (no revoked commitment is ever confirmed; that is C06); persistence is synchronous; no restarts");
 	c.assume("consensus validity = libbitcoinconsensus script verification + nLockTime/BIP-68 height rules + inputs exist + fee >= 0, judged for the block after the tip at the moment the transaction is handed to the broadcaster; relay policy is not modelled. A spend that lost to a transaction confirmed in the very block the node is processing is tolerated as stale");
 	c.assume("every valid mempool transaction confirms within the case's max_delay blocks (0..18 = MAX_BLOCKS_FOR_CONF in 5 of 6 cases, 19..60 in the rest) unless a conflicting one confirms first; which of two conflicting transactions confirms is a generator choice; no reorgs (C11)");
-	c.assume("anchor channels: each node's wallet holds 12 confirmed 1-BTC UTXOs, so coin selection never fails (the 'barely enough UTXOs' corner of the design is not generated)");
+	c.assume("anchor channels: each node's wallet holds 30 confirmed 1-BTC UTXOs, so coin selection never fails (the 'barely enough UTXOs' corner of the design is not generated)");
 	c.assume("fee monotonicity tolerance 2 % (signature-size variance, integer feerate rounding); SpendableOutputs are swept one event at a time at 253 sat/kw to a per-node script by spend_spendable_outputs the moment they are announced");
 	c.assume("tolerated and documented: a ClaimableAwaitingConfirmations entry of 0 sat for an absent balance output; an empty OP_RETURN output on the anchor CPFP child");
 	let (prefix, burst, steps) = if thorough { (40, 12, 60) } else { (22, 7, 30) };
